@@ -102,6 +102,8 @@ Proof.
   - f_equal. revert H. apply conv_eqb_true. intros [x1 x2] [y1 y2]; cbn. intros H.
     apply andb_prop in H as [H1 H2]. apply fl_same_true in H1, H2. now subst.
   - apply andb_prop in H as [H1 H2]. apply Z.eqb_eq in H1, H2. now subst.
+  - apply andb_prop in H as [H1 H3]. apply andb_prop in H1 as [H1 H2].
+    apply Z.eqb_eq in H1, H3. apply zlist_eqb_true in H2. now subst.
 Qed.
 
 Lemma pv_eqb_refl : forall a, pv_eqb a a = true.
@@ -124,6 +126,7 @@ Proof.
   - apply conv_eqb_refl. apply fl_same_refl.
   - apply conv_eqb_refl. intros [x y]; cbn. now rewrite !fl_same_refl.
   - now rewrite !Z.eqb_refl.
+  - now rewrite !Z.eqb_refl, zlist_eqb_refl.
 Qed.
 
 Lemma pvs_eqb_true : forall l m, pvs_eqb l m = true -> l = m.
@@ -140,7 +143,7 @@ Proof. destruct r; cbn; [apply pv_eqb_refl | reflexivity | apply exn_eqb_refl]. 
 (* ---------- the duplicated switch agrees with the stand-alone validators ---------- *)
 (* what TraitCompound.set_validate can put in the fast list *)
 Definition alt_ok (a : desc) : bool :=
-  match a with DAny | DCompound _ | DModule => false | _ => true end.
+  match a with DAny | DModule => false | _ => true end.
 
 Ltac dm :=
   repeat (match goal with
@@ -168,11 +171,18 @@ Lemma first_outcome_app a b :
   first_outcome (a ++ b) = match first_outcome a with Reject => first_outcome b | x => x end.
 Proof. induction a as [|[w| |e] a IH]; cbn; try reflexivity. exact IH. Qed.
 
+Lemma first_sel_none sel f ds : existsb sel ds = false -> first_sel sel f ds = Reject.
+Proof.
+  induction ds as [|d r IH]; cbn; [reflexivity|]. intros H. apply orb_false_iff in H as [H1 H2].
+  rewrite H1. now apply IH.
+Qed.
+
 Lemma slow_alt_c_eq_py E a v :
   alt_ok a = true -> is_fast a = false -> c_validate E a v = py_validate E a v.
 Proof.
   destruct a; cbn; try discriminate; try reflexivity.
-  destruct ds; [reflexivity | discriminate].
+  - destruct ds; [reflexivity | discriminate].
+  - intros _ H. now rewrite !(first_sel_none is_fast _ ds H).
 Qed.
 
 Lemma map_ext_filter {A B} (p : A -> bool) (f g : A -> B) l :
@@ -332,10 +342,16 @@ Definition cast_no_escape (E : env) (v : pv) (a : desc) : bool :=
 (* Instance(C, allow_none=False) where None is an instance of C (excludes finding F18) *)
 Definition none_ok (E : env) (a : desc) : bool :=
   match a with DInstance cls false _ => negb (issub E cNONE cls) | _ => true end.
+(* the alternatives of a compound, through nested compounds *)
+Fixpoint alt_benign (E : env) (v : pv) (a : desc) : bool :=
+  match a with
+  | DCompound ds => forallb (alt_benign E v) ds
+  | _ => cast_no_escape E v a && none_ok E a
+  end.
 Definition benign (E : env) (d : desc) (v : pv) : bool :=
   bool_final E && no_tuplesub v && none_ok E d &&
   match d with
-  | DCompound ds => forallb (fun a => cast_no_escape E v a && none_ok E a) ds
+  | DCompound ds => forallb (alt_benign E v) ds
   | _ => true
   end.
 
@@ -384,11 +400,11 @@ Proof. destruct v; cbn; try discriminate. intros _ H; now inversion H. Qed.
 
 Lemma leaf_eq E a v :
   alt_ok a = true -> is_fast a = true -> bool_final E = true -> no_tuplesub v = true ->
-  cast_no_escape E v a = true -> none_ok E a = true ->
+  cast_no_escape E v a = true -> none_ok E a = true -> (forall ds, a <> DCompound ds) ->
   c_case E a v = py_validate E a v.
 Proof.
-  intros Hok Hf HB HT HC HN.
-  destruct a; cbn in Hok, Hf; try discriminate.
+  intros Hok Hf HB HT HC HN Hnc.
+  destruct a; cbn in Hok, Hf; try discriminate; try (exfalso; eapply Hnc; reflexivity).
   - (* DInt *) cbn. dm.
   - (* DFloat *) cbn. dm.
   - (* DComplex *) cbn. dm.
@@ -430,23 +446,70 @@ Proof.
   destruct r; cbn; auto. now rewrite pv_eqb_refl.
 Qed.
 
-Lemma first_sel_fast_eq E v ds :
-  forallb alt_ok ds = true -> bool_final E = true -> no_tuplesub v = true ->
-  forallb (fun a => cast_no_escape E v a && none_ok E a) ds = true ->
-  first_sel is_fast (fun a => c_case E a v) ds = first_sel is_fast (fun a => py_validate E a v) ds.
-Proof.
-  intros Hok HB HT. induction ds as [|a ds IH]; cbn; [reflexivity|]. intros H.
-  apply andb_prop in H as [Ha Hr]. apply andb_prop in Ha as [Hc Hn].
-  cbn in Hok. apply andb_prop in Hok as [Hoa Hor].
-  destruct (is_fast a) eqn:Hf.
-  - rewrite (leaf_eq E a v Hoa Hf HB HT Hc Hn). rewrite (IH Hor Hr). reflexivity.
-  - apply IH; assumption.
-Qed.
-
 Lemma wf_compound_alts ds : wf_desc (DCompound ds) = true -> forallb alt_ok ds = true.
 Proof.
-  cbn. intros H. apply andb_prop in H as [H _]. apply andb_prop in H as [_ H].
-  rewrite forallb_forall in *. intros a Ha. specialize (H a Ha). now destruct a.
+  cbn. intros H. apply andb_prop in H as [H _]. apply andb_prop in H as [_ H]. exact H.
+Qed.
+
+(* induction on trait descriptions with the nested lists *)
+Section desc_ind_nested.
+  Variable P : desc -> Prop.
+  Hypothesis Hleaf : forall d, (forall ds, d <> DTuple ds /\ d <> DCompound ds /\ d <> DUnion ds) -> P d.
+  Hypothesis Htuple : forall ds, Forall P ds -> P (DTuple ds).
+  Hypothesis Hcomp : forall ds, Forall P ds -> P (DCompound ds).
+  Hypothesis Hunion : forall ds, Forall P ds -> P (DUnion ds).
+
+  Fixpoint desc_ind' (d : desc) : P d.
+  Proof.
+    assert (L : forall ds, Forall P ds).
+    { fix IHl 1. intros [|a ds]; [constructor | constructor; [apply desc_ind' | apply IHl]]. }
+    destruct d.
+    all: try (apply Hleaf; intros ds0; repeat split; discriminate).
+    - apply Htuple, L.
+    - apply Hcomp, L.
+    - apply Hunion, L.
+  Defined.
+End desc_ind_nested.
+
+Lemma first_sel_ext sel f g ds :
+  (forall a, In a ds -> sel a = true -> f a = g a) -> first_sel sel f ds = first_sel sel g ds.
+Proof.
+  induction ds as [|d r IH]; cbn; intros H; [reflexivity|].
+  destruct (sel d) eqn:Hs.
+  - rewrite (H d (or_introl eq_refl) Hs). rewrite IH; [reflexivity|]. intros a Ha. apply H. now right.
+  - apply IH. intros a Ha. apply H. now right.
+Qed.
+
+Definition alt_eq_at (E : env) (v : pv) (a : desc) : Prop :=
+  wf_desc a = true -> alt_ok a = true -> is_fast a = true -> alt_benign E v a = true ->
+  c_case E a v = py_validate E a v.
+
+Lemma alt_eq E v : bool_final E = true -> no_tuplesub v = true -> forall a, alt_eq_at E v a.
+Proof.
+  intros HB HT a. induction a as [d H|ds H|ds H|ds H] using desc_ind'.
+  - (* leaves *) intros _ Hok Hf Hb.
+    assert (Hb' : cast_no_escape E v d && none_ok E d = true).
+    { destruct d; try exact Hb. exfalso. destruct (H ds) as (_ & Hc & _). now apply Hc. }
+    apply andb_prop in Hb' as [Hc Hn]. apply leaf_eq; auto. intros ds Hd. destruct (H ds) as (_ & Hx & _). now apply Hx.
+  - (* Tuple *) intros _ Hok Hf Hb. apply leaf_eq; auto; try reflexivity. discriminate.
+  - (* Compound *) intros Hwf _ _ Hb. cbn [c_case py_validate].
+    rewrite (first_sel_ext is_fast (fun a => c_case E a v) (fun a => py_validate E a v)); [reflexivity|].
+    intros a Hin Hfa. rewrite Forall_forall in H.
+    pose proof (wf_compound_alts ds Hwf) as Hok. cbn [wf_desc] in Hwf.
+    apply andb_prop in Hwf as [Hwf _]. apply andb_prop in Hwf as [Hwf _]. cbn [alt_benign] in Hb.
+    rewrite forallb_forall in Hwf, Hok, Hb. apply (H a Hin); auto.
+  - (* Union: never fast *) intros _ _ Hf. discriminate.
+Qed.
+
+Lemma first_sel_fast_eq E v ds :
+  wf_desc (DCompound ds) = true -> bool_final E = true -> no_tuplesub v = true ->
+  forallb (alt_benign E v) ds = true ->
+  first_sel is_fast (fun a => c_case E a v) ds = first_sel is_fast (fun a => py_validate E a v) ds.
+Proof.
+  intros Hwf HB HT Hb. apply first_sel_ext. intros a Hin Hf.
+  pose proof (wf_compound_alts ds Hwf) as Hok. cbn [wf_desc] in Hwf.
+  apply andb_prop in Hwf as [Hwf _]. apply andb_prop in Hwf as [Hwf _].
+  rewrite forallb_forall in Hwf, Hok, Hb. apply alt_eq; auto.
 Qed.
 
 Lemma fast_eq_slow_lemma E d v :
@@ -464,11 +527,11 @@ Proof.
         | destruct (cast_fn E t v) as [w|e]; [apply agrees_refl | destruct t, e; reflexivity] ]
     | |- agrees (c_validate E (DCompound ?ds) v) _ = true =>
         cbn [c_validate py_validate];
-        rewrite (first_sel_fast_eq E v ds (wf_compound_alts ds Hwf) HB HT Hcomp); apply agrees_refl
+        rewrite (first_sel_fast_eq E v ds Hwf HB HT Hcomp); apply agrees_refl
     | |- _ =>
         (* the stand-alone validator equals its switch case, which equals the Python validate *)
         rewrite <- case_eq_standalone_lemma by (try reflexivity; exact Hs);
-        rewrite leaf_eq by (try reflexivity; try assumption); apply agrees_refl
+        rewrite leaf_eq by (try reflexivity; try assumption; try discriminate); apply agrees_refl
     end.
 Qed.
 
@@ -536,3 +599,17 @@ Lemma nonvacuous_example :
   /\ c_validate E0 d (PStr [97]) = Accept (PStr [97])
   /\ c_validate E0 d (PObj 101 1) = Accept (PObj 101 1).
 Proof. vm_compute. repeat split. Qed.
+
+(* ---------- the whole law on the model's own observation ---------- *)
+Lemma law_on_model_lemma E d v :
+  wf_desc d = true -> c03_scope d = true -> benign E d v = true ->
+  (forall ds, d = DCompound ds -> order_preserved ds = true) ->
+  law_obs (c_validate E d v, Some (py_validate E d v),
+           match d with DCompound ds => Some (map (fun a => c_validate E a v) ds) | _ => None end) = [].
+Proof.
+  intros Hwf Hs Hb Hord. pose proof (fast_eq_slow_lemma E d v Hwf Hs Hb) as Ha.
+  unfold agrees in Ha. apply andb_prop in Ha as [Ha H3]. apply andb_prop in Ha as [H1 H2].
+  unfold law_obs. rewrite H1, H2, H3. cbn [chk app].
+  destruct d; try reflexivity.
+  rewrite (compound_declaration_order_lemma E ds v (wf_compound_alts ds Hwf) (Hord ds eq_refl)). reflexivity.
+Qed.
